@@ -80,7 +80,7 @@ P(i)      == X(i)
 XV(f, j)  == X(NP(f) + j)
 
 (* ------------------------------------------------------------- validity *)
-(* Degenerate boundary values (theta in {0,1} for Binomial, p in {0,1} for *)
+(* Degenerate boundary values (p in {0,1} for                             *)
 (* the Negative Binomial, zero mixture weights, a zero                     *)
 (* probability in the Categorical) are neither required to be accepted nor *)
 (* to be rejected: they do not occur in the grids.                         *)
@@ -93,7 +93,7 @@ Valid(f, p) ==
     [] f = "gengamma"             -> Pos(p[1]) /\ Pos(p[2]) /\ Pos(p[3])
     [] f \in {"chisq", "exponential", "poisson"} -> Pos(p[1])
     [] f = "powerlaw"             -> RLt(I(1), p[1]) /\ Pos(p[2])
-    [] f = "binomial"             -> Pos(p[1]) /\ RLt(p[1], I(1)) /\ IsInt(p[2]) /\ NonNeg(p[2])
+    [] f = "binomial"             -> NonNeg(p[1]) /\ RLe(p[1], I(1)) /\ IsInt(p[2]) /\ NonNeg(p[2])   \* theta in {0,1}: one atom
     [] f = "negbinomial"          -> Pos(p[1]) /\ Pos(p[2]) /\ RLt(p[2], I(1))
     [] f = "geometric"            -> Pos(p[1]) /\ RLe(p[1], I(1))     \* p = 1: all mass at 0
     [] f = "categorical"          -> Pos(p[1]) /\ Pos(p[2]) /\ Pos(p[3]) /\ REq(RAdd(p[1], RAdd(p[2], p[3])), I(1))
@@ -150,7 +150,8 @@ ParamSet0(f) ==
     [] f = "exponential" -> {<<R(1, 4)>>, <<R(1, 2)>>, <<I(1)>>, <<I(2)>>, <<I(5)>>, <<I(0)>>, <<I(-1)>>}
     [] f = "gengamma"    -> Cross3({I(1), I(2)}, {R(1, 2), I(1), I(3)}, {R(1, 2), I(2)}) \cup {<<I(0), I(1), I(1)>>, <<I(1), I(0), I(1)>>, <<I(1), I(1), I(0)>>, <<I(1), I(-1), I(2)>>}
     [] f = "powerlaw"    -> Cross2({R(3, 2), I(2), I(3), R(5, 4)}, {R(1, 2), I(1), I(2)}) \cup {<<I(1), I(1)>>, <<R(1, 2), I(1)>>, <<I(0), I(1)>>, <<I(-1), I(1)>>, <<I(2), I(0)>>, <<I(2), I(-1)>>}
-    [] f = "binomial"    -> Cross2({R(1, 4), R(1, 2), R(3, 4), R(1, 10)}, {I(0), I(1), I(4), I(6)}) \cup {<<R(-1, 4), I(3)>>, <<R(5, 4), I(3)>>, <<R(1, 2), I(-1)>>}
+    [] f = "binomial"    -> Cross2({R(1, 4), R(1, 2), R(3, 4), R(1, 10)}, {I(0), I(1), I(4), I(6)}) \cup Cross2({I(0), I(1)}, {I(0), I(3)})
+                            \cup {<<R(-1, 4), I(3)>>, <<R(5, 4), I(3)>>, <<R(1, 2), I(-1)>>}
     [] f = "negbinomial" -> Cross2({I(1), I(2), I(3), R(1, 2), R(5, 2)}, {R(1, 4), R(1, 2), R(3, 4)}) \cup {<<I(0), R(1, 2)>>, <<I(-1), R(1, 2)>>, <<I(2), R(-1, 4)>>, <<I(2), R(5, 4)>>}
     [] f = "poisson"     -> {<<R(1, 2)>>, <<I(1)>>, <<I(2)>>, <<I(3)>>, <<I(5)>>, <<I(0)>>, <<I(-1)>>}
     [] f = "geometric"   -> {<<R(1, 10)>>, <<R(1, 4)>>, <<R(1, 2)>>, <<R(3, 4)>>, <<R(9, 10)>>, <<I(1)>>, <<I(0)>>, <<R(-1, 4)>>, <<R(5, 4)>>}
@@ -208,7 +209,10 @@ Supp(f, p, xs) ==
     [] f = "betalog"     -> IF x.n > 0 THEN "out" ELSE IF x.n = 0 THEN "bd" ELSE "in"
     [] f = "exponential" -> IF x.n < 0 THEN "out" ELSE "in"
     [] f = "powerlaw"    -> IF RLt(x, p[2]) THEN "out" ELSE "in"
-    [] f = "binomial"    -> IF ~IsInt(x) THEN "nonint" ELSE IF x.n < 0 \/ RLt(p[2], x) THEN "out" ELSE "in"
+    [] f = "binomial"    -> IF ~IsInt(x) THEN "nonint" ELSE IF x.n < 0 \/ RLt(p[2], x) THEN "out"
+                            ELSE IF p[1].n = 0 /\ x.n > 0 THEN "out"               \* theta = 0: all mass at 0
+                            ELSE IF REq(p[1], I(1)) /\ RLt(x, p[2]) THEN "out"     \* theta = 1: all mass at n
+                            ELSE "in"
     [] f \in {"negbinomial", "poisson"} -> IF ~IsInt(x) THEN "nonint" ELSE IF x.n < 0 THEN "out" ELSE "in"
     [] f = "geometric"   -> IF ~IsInt(x) THEN "nonint" ELSE IF x.n < 0 THEN "out"
                             ELSE IF REq(p[1], I(1)) /\ x.n > 0 THEN "out" ELSE "in"
@@ -231,6 +235,7 @@ Class(s) == CASE s = "in" -> "finite" [] s = "out" -> "neginf" [] s = "bd" -> "b
 (* contain x in their support; categorical: which probability)              *)
 Variants(f) == CASE f = "categorical"    -> <<"k0", "k1", "k2">>
                  [] f = "geometric"      -> <<"std", "p1">>
+                 [] f = "binomial"       -> <<"std", "t0", "t1">>
                  [] f = "mix_normal_exp" -> <<"a", "ab">>
                  [] f = "mix_exp_pareto" -> <<"a", "ab">>
                  [] OTHER -> <<"std">>
@@ -239,6 +244,7 @@ Variant(f, p, xs) ==
     [] f = "mix_normal_exp" -> IF xs[1].n < 0 THEN "a" ELSE "ab"
     [] f = "mix_exp_pareto" -> IF RLt(xs[1], p[4]) THEN "a" ELSE "ab"
     [] f = "geometric"      -> IF REq(p[1], I(1)) THEN "p1" ELSE "std"
+    [] f = "binomial"       -> IF p[1].n = 0 THEN "t0" ELSE IF REq(p[1], I(1)) THEN "t1" ELSE "std"
     [] OTHER -> "std"
 
 (* ------------------------------------------------------ evaluation points *)
@@ -362,7 +368,10 @@ LP(f, v) ==
     [] f = "exponential" -> LPExp(P(1), x)
     [] f = "gengamma"    -> LPGenGamma(P(1), P(2), P(3), x)
     [] f = "powerlaw"    -> LPPowerLaw(P(1), P(2), x)
-    [] f = "binomial"    -> LPBinomial(P(1), P(2), x)
+    (* theta = 0: mass (1-theta)^n at k = 0; theta = 1: mass theta^n at k = n *)
+    [] f = "binomial"    -> IF v = "t0" THEN Mul(P(2), Log(Sub(One, P(1))))
+                            ELSE IF v = "t1" THEN Mul(P(2), Log(P(1)))
+                            ELSE LPBinomial(P(1), P(2), x)
     [] f = "negbinomial" -> LPNegBin(P(1), P(2), x)
     [] f = "poisson"     -> LPPoisson(P(1), x)
     (* p = 1: the whole mass sits at k = 0 and (1-p)^0 = 1 *)
